@@ -46,6 +46,8 @@ def main():
     from symtrace.concrete import run_concrete, flat, lincomb_of, ev_concrete
     env = ENV.load(spec.get("backend", "snarkjs"), symbolic=False)
     P = env.P
+    if "cfg" not in spec:
+        spec["cfg"] = spec["runs"][0]["cfg"]
     entry = find_entry(spec)
     cfg = dict(spec["cfg"])
     if isinstance(cfg.get("guard"), list):
@@ -115,9 +117,14 @@ def main():
         no("run completed")
 
     if kind == "c06":
-        a = run(spec["inputs"])
-        b = run(spec["inputs2"])
-        if spec.get("both_complete", True) and (a["outcome"] != "ok" or b["outcome"] != "ok"):
+        outs = []
+        for rn in spec["runs"]:
+            c = dict(rn["cfg"])
+            if isinstance(c.get("guard"), list):
+                c["guard"] = tuple(c["guard"])
+            outs.append(run_concrete(env, entry, c, ints(rn["inputs"])))
+        a, b = outs
+        if a["outcome"] != "ok" or b["outcome"] != "ok":
             no("a run raised: %r / %r" % (a["exc"], b["exc"]))
 
         def canon(out):
@@ -132,7 +139,7 @@ def main():
         ca, cb = canon(a), canon(b)
         if ca != cb:
             what = "variable counts" if ca[:2] != cb[:2] else ("constraints" if ca[2] != cb[2] else "result wires")
-            yes("%s differ between inputs %s and %s" % (what, spec["inputs"], spec["inputs2"]))
+            yes("%s differ between runs %s" % (what, spec["runs"]))
         no("traces identical")
 
     if kind in ("c02", "c03_rejected_provable"):
